@@ -226,3 +226,46 @@ Proof.
     + eexists. split; [reflexivity|apply alookup_aset_same].
     + reflexivity.
 Qed.
+
+(* ---- a protected header that is ALREADY base64url text (since /repo 54a50c4 jose_jwe_enc_cek_io decodes it to look
+   for "enc"; before, such a template was refused although jwe_hdr_set has the branch for it) *)
+
+(* the caller's enc inside the encoded protected header is the one applied, and nothing is rewritten *)
+Theorem enc_cek_encoded_caller ealgs m cek s pm h a :
+  alookup s_protected m = Some (JStr s) -> jose_b64_dec_load (JStr s) = Some (JObj pm) ->
+  alookup s_enc pm = Some (JStr h) -> alookup s_unprotected m = None ->
+  get_opt_str s_alg cek = OAbsent -> find_encr ealgs (cstr h) = Some a ->
+  jwk_prm cek false (Some (ea_eprm a)) = true ->
+  enc_cek_prepare ealgs (JObj m) cek = Some (a, JObj m).
+Proof.
+  intros P D E U K F Pm. unfold enc_cek_prepare. rewrite P, D, E, U, K, F, Pm. cbn [negb].
+  unfold encode_protected. rewrite P. reflexivity.
+Qed.
+
+(* an inferred enc is written into the shared unprotected header; the encoded protected header stays as it is *)
+Theorem enc_cek_encoded_inferred ealgs m cek s pm k a :
+  alookup s_protected m = Some (JStr s) -> jose_b64_dec_load (JStr s) = Some (JObj pm) ->
+  alookup s_enc pm = None -> alookup s_unprotected m = None ->
+  get_opt_str s_alg cek = OStr k -> find_encr ealgs k = Some a ->
+  jwk_prm cek false (Some (ea_eprm a)) = true ->
+  enc_cek_prepare ealgs (JObj m) cek =
+    Some (a, JObj (aset s_unprotected (JObj [(s_enc, JStr (ea_name a))]) m)).
+Proof.
+  intros P D E U K F Pm. unfold enc_cek_prepare. rewrite P, D, E, U, K, F.
+  unfold jwe_hdr_set. rewrite P, U, Pm. cbn [negb].
+  unfold encode_protected.
+  rewrite alookup_aset_other by (vm_compute; discriminate). rewrite P. reflexivity.
+Qed.
+
+(* text that does not decode to an object is refused *)
+Theorem enc_cek_encoded_undecodable ealgs m cek s :
+  alookup s_protected m = Some (JStr s) ->
+  (forall pm, jose_b64_dec_load (JStr s) <> Some (JObj pm)) ->
+  enc_cek_prepare ealgs (JObj m) cek = None.
+Proof.
+  intros P D. unfold enc_cek_prepare. rewrite P.
+  destruct (jose_b64_dec_load (JStr s)) as [j|] eqn:L.
+  - destruct j; try (exfalso; eapply D; reflexivity);
+      match goal with |- match ?x with _ => _ end = None => destruct x; reflexivity end.
+  - match goal with |- match ?x with _ => _ end = None => destruct x; reflexivity end.
+Qed.
